@@ -159,4 +159,7 @@ def spec_text(f, tape, bp=F.default_bound_printer, aliases=True, minimal=True, e
         text += ';'
         # white space (a line break at the end of a file) or a comment after the final ';'
         text += ('', '', '', '\n', ' ', '\t\n', ' // end', ' /* end */', '\n\n')[tape.take(9)]
+    else:
+        # no final ';': the text may still end with a comment (whose last character may be a ';')
+        text += ('', '', '', ' // an older version: x > 1;', ' /* checked; */', '\n// done;\n')[tape.take(6)]
     return text
